@@ -9,6 +9,7 @@ or not / `Obj.bool`), at the level of the dispatching API functions
 the matching `…_witness` theorems prove the model really departs from the spec there.
 -/
 import GPy.C07.Proofs
+import GPy.C07.TextProofs
 namespace GPy.C07
 
 /-- shared proof script: case-split on the representations of both operands,
@@ -153,6 +154,19 @@ the theorems compose along any expression. -/
 theorem word_results_wf {a b : Int} (ha : inRange a) (hb : inRange b) :
     WF (intAdd a b) ∧ WF (intSub a b) ∧ WF (intMul a b) :=
   ⟨(intAdd_exact ha hb).2, (intSub_exact ha hb).2, (intMul_exact ha hb).2⟩
+
+/-- Text → integer: for EVERY text and EVERY base argument, `py.IntFromString` (model)
+yields exactly the value Python's `int(text, base)` grammar assigns, or ValueError
+exactly when the grammar rejects the text; the result representation (word or big)
+never matters. -/
+theorem text_to_int_exact (str : List Char) (base : Nat) :
+    (intFromString str base).bind valOf = specIntFromString str base :=
+  intFromString_spec str base
+
+/-- results of `IntFromString` on the int64 fast path really fit in an int64 is NOT claimed
+here (it needs `strconv.ParseInt`'s range contract); the representation tag is compared
+by the correspondence run instead. -/
+example : (intFromString "  -0x00ff ".toList 0).bind valOf = some (-255) := by decide
 
 /-! ### witnesses for the excluded region (known finding C07-K01) -/
 
